@@ -980,6 +980,344 @@ func vfC08BlackholeDial(e *vfEnv, r *vfResult, idx int) {
 	r.distinct("c08blackhole/" + kind)
 }
 
+// vfC08StalledTURNS: Close while the relay gatherer is in the middle of a TLS (turns over TCP) or DTLS (turns over UDP)
+// handshake with a server that accepted the connection and then says nothing.  The handshake belongs to the gathering
+// cycle: Close cancels the cycle and waits for it, so it returns only if the handshake gives up with it.
+func vfC08StalledTURNS(e *vfEnv, r *vfResult, idx int) { //nolint:cyclop
+	rng := e.rng(idx, "stalledturns")
+	proto := []string{"tcp", "udp"}[rng.IntN(2)]
+	port := 0
+	var mu sync.Mutex
+	var accepted []net.Conn
+	if proto == "tcp" {
+		ln, err := net.Listen("tcp4", "127.0.0.1:0")
+		if err != nil {
+			r.inconclusive(1)
+
+			return
+		}
+		defer ln.Close() //nolint:errcheck
+		port = ln.Addr().(*net.TCPAddr).Port //nolint:forcetypeassert
+		go func() {
+			for {
+				c, err := ln.Accept()
+				if err != nil {
+					return
+				}
+				mu.Lock()
+				accepted = append(accepted, c) // kept open, never answered
+				mu.Unlock()
+			}
+		}()
+	} else {
+		pc, err := net.ListenPacket("udp4", "127.0.0.1:0")
+		if err != nil {
+			r.inconclusive(1)
+
+			return
+		}
+		defer pc.Close() //nolint:errcheck
+		port = pc.LocalAddr().(*net.UDPAddr).Port //nolint:forcetypeassert
+	}
+	releaseServer := func() {
+		mu.Lock()
+		for _, c := range accepted {
+			_ = c.Close()
+		}
+		accepted = nil
+		mu.Unlock()
+	}
+	defer releaseServer()
+	uri, err := stun.ParseURI(fmt.Sprintf("turns:127.0.0.1:%d?transport=%s", port, proto))
+	if err != nil {
+		r.inconclusive(1)
+
+		return
+	}
+	uri.Username, uri.Password = "user", "pass"
+	a, err := NewAgent(&AgentConfig{CandidateTypes: []CandidateType{CandidateTypeRelay}, NetworkTypes: []NetworkType{NetworkTypeUDP4, NetworkTypeTCP4},
+		Urls: []*stun.URI{uri}, InsecureSkipVerify: true, IncludeLoopback: true, InterfaceFilter: func(n string) bool { return n == "lo" },
+		MulticastDNSMode: MulticastDNSModeDisabled, LoggerFactory: vfQuietLogger()})
+	if err != nil {
+		r.inconclusive(1)
+		r.note("stalled turns: %v", err)
+
+		return
+	}
+	_ = a.OnCandidate(func(Candidate) {})
+	if err := a.GatherCandidates(); err != nil {
+		_ = a.Close()
+		r.inconclusive(1)
+
+		return
+	}
+	inHandshake := func() int {
+		n := 0
+		for _, g := range strings.Split(vfStacks(), "\n\n") {
+			if strings.Contains(g, "gatherCandidatesRelay") && strings.Contains(g, "andshake") {
+				n++
+			}
+		}
+
+		return n
+	}
+	for dl := time.Now().Add(3 * time.Second); inHandshake() == 0 && time.Now().Before(dl); time.Sleep(300 * time.Microsecond) {
+	}
+	if inHandshake() == 0 {
+		_ = a.Close()
+		r.count("c08_stalled_turns_handshake_not_reached", 1)
+
+		return
+	}
+	kind := []string{"close", "graceful"}[rng.IntN(2)]
+	done := make(chan struct{})
+	go func() {
+		defer close(done)
+		if kind == "graceful" {
+			_ = a.GracefulClose()
+		} else {
+			_ = a.Close()
+		}
+	}()
+	r.eval(1)
+	ok, stuck, dump := vfAwaitOrStuck(done, 3*time.Second)
+	switch {
+	case ok:
+		r.count("c08_stalled_turns_closes_checked", 1)
+	case stuck:
+		r.violation("close-stuck:turns-handshake-pending:"+proto, fmt.Sprintf("history %d: %s did not return while the relay gatherer was in a TLS/DTLS handshake (turns over %s) with a server that never answers: the involved goroutines are parked in the same frames in two dumps", idx, kind, proto),
+			map[string]any{"idx": idx, "kind": kind, "transport": proto, "stacks": dump})
+	default:
+		r.inconclusive(1)
+	}
+	// let the handshake fail so that nothing outlives this history
+	releaseServer()
+	select {
+	case <-done:
+	case <-time.After(20 * time.Second):
+	}
+	r.distinct("c08stalledturns/" + proto + "/" + kind)
+}
+
+// vfC08MuxWriteBlocked: an agent whose host candidate lives on a shared UDP mux socket is closed while one of its
+// connectivity checks is blocked inside the socket write (full send buffer).  Close has to get that write aborted; the
+// shared socket offers net.PacketConn I/O only, or also netip.AddrPort I/O as a real *net.UDPConn does.
+func vfC08MuxWriteBlocked(e *vfEnv, r *vfResult, idx int) {
+	rng := e.rng(idx, "muxwriteblocked")
+	sw := newVfSwitch()
+	sock := newVfMuxSock("10.0.0.9:7000")
+	var under net.PacketConn = sock
+	addrPort := rng.IntN(2) == 0
+	if addrPort {
+		under = vfMuxSockAP{sock}
+	}
+	mux := NewUDPMuxDefault(UDPMuxParams{UDPConn: under, Logger: vfQuietLogger().NewLogger("ice"), Net: vfSimpleNet(sw, "mux", "10.0.0.9")})
+	defer mux.Close() //nolint:errcheck
+	a, err := NewAgent(&AgentConfig{UDPMux: mux, CandidateTypes: []CandidateType{CandidateTypeHost}, NetworkTypes: []NetworkType{NetworkTypeUDP4},
+		Net: vfSimpleNet(sw, "A", "10.0.0.9"), MulticastDNSMode: MulticastDNSModeDisabled, LoggerFactory: vfQuietLogger()})
+	if err != nil {
+		r.inconclusive(1)
+		r.note("mux write blocked: %v", err)
+
+		return
+	}
+	gathered := make(chan struct{})
+	var once sync.Once
+	_ = a.OnCandidate(func(c Candidate) {
+		if c == nil {
+			once.Do(func() { close(gathered) })
+		}
+	})
+	if err := a.GatherCandidates(); err != nil {
+		_ = a.Close()
+		r.inconclusive(1)
+
+		return
+	}
+	select {
+	case <-gathered:
+	case <-time.After(5 * time.Second):
+		_ = a.Close()
+		r.inconclusive(1)
+
+		return
+	}
+	if l, _ := a.GetLocalCandidates(); len(l) == 0 {
+		_ = a.Close()
+		r.count("c08_mux_write_blocked_no_candidate", 1)
+
+		return
+	}
+	rc, err := NewCandidateHost(&CandidateHostConfig{Network: "udp", Address: "10.9.0.1", Port: 4000, Component: 1})
+	if err != nil {
+		_ = a.Close()
+		r.inconclusive(1)
+
+		return
+	}
+	sock.setBlocking(true)
+	_ = a.AddRemoteCandidate(rc)
+	if err := a.startConnectivityChecks(rng.IntN(2) == 0, "peerufrag", "peerpasswordpeerpassword0000"); err != nil {
+		sock.setBlocking(false)
+		_ = a.Close()
+		r.inconclusive(1)
+
+		return
+	}
+	for dl := time.Now().Add(5 * time.Second); sock.blockedW.Load() == 0 && time.Now().Before(dl); time.Sleep(200 * time.Microsecond) {
+	}
+	if sock.blockedW.Load() == 0 {
+		sock.setBlocking(false)
+		_ = a.Close()
+		r.count("c08_mux_write_blocked_not_reached", 1)
+
+		return
+	}
+	kind := []string{"close", "graceful"}[rng.IntN(2)]
+	done := make(chan struct{})
+	go func() {
+		defer close(done)
+		if kind == "graceful" {
+			_ = a.GracefulClose()
+		} else {
+			_ = a.Close()
+		}
+	}()
+	r.eval(1)
+	ok, stuck, dump := vfAwaitOrStuck(done, 3*time.Second)
+	switch {
+	case ok:
+		r.count("c08_mux_write_blocked_closes_checked", 1)
+	case stuck:
+		r.violation("close-stuck:udpmux-write-blocked", fmt.Sprintf("history %d: %s did not return while a connectivity check was blocked in the write of the shared UDP mux socket (socket offers AddrPort I/O: %v): the involved goroutines are parked in the same frames in two dumps", idx, kind, addrPort),
+			map[string]any{"idx": idx, "kind": kind, "addrport_socket": addrPort, "stacks": dump})
+	default:
+		r.inconclusive(1)
+	}
+	sock.setBlocking(false) // the socket accepts data again: whatever was stuck moves on
+	select {
+	case <-done:
+	case <-time.After(20 * time.Second):
+	}
+	r.distinct(fmt.Sprintf("c08muxwriteblocked/ap=%v/%s", addrPort, kind))
+}
+
+// vfC08TCPBacklog: a passive ICE-TCP candidate (TCP mux with a small receive queue) whose peer has already connected and
+// sent more packets than the queue holds while nobody reads them (the agent has gathered but was not started yet; or the
+// queue is simply behind).  The connection's reader is parked handing a packet to the full queue when Close comes.
+func vfC08TCPBacklog(e *vfEnv, r *vfResult, idx int) { //nolint:cyclop
+	rng := e.rng(idx, "tcpbacklog")
+	ln, err := net.Listen("tcp4", "127.0.0.1:0")
+	if err != nil {
+		r.inconclusive(1)
+
+		return
+	}
+	tmux := NewTCPMuxDefault(TCPMuxParams{Listener: ln, Logger: vfQuietLogger().NewLogger("ice"), ReadBufferSize: rng.IntN(3)})
+	defer func() { // bounded: on a tree where the reader never lets go the mux cannot finish closing either
+		ch := make(chan struct{})
+		go func() { _ = tmux.Close(); close(ch) }()
+		select {
+		case <-ch:
+		case <-time.After(5 * time.Second):
+		}
+	}()
+	a, err := NewAgent(&AgentConfig{TCPMux: tmux, CandidateTypes: []CandidateType{CandidateTypeHost}, NetworkTypes: []NetworkType{NetworkTypeTCP4},
+		IncludeLoopback: true, InterfaceFilter: func(n string) bool { return n == "lo" }, MulticastDNSMode: MulticastDNSModeDisabled, LoggerFactory: vfQuietLogger()})
+	if err != nil {
+		r.inconclusive(1)
+		r.note("tcp backlog: %v", err)
+
+		return
+	}
+	gathered := make(chan struct{})
+	var once sync.Once
+	_ = a.OnCandidate(func(c Candidate) {
+		if c == nil {
+			once.Do(func() { close(gathered) })
+		}
+	})
+	if err := a.GatherCandidates(); err != nil {
+		_ = a.Close()
+		r.inconclusive(1)
+
+		return
+	}
+	select {
+	case <-gathered:
+	case <-time.After(5 * time.Second):
+		_ = a.Close()
+		r.inconclusive(1)
+
+		return
+	}
+	if l, _ := a.GetLocalCandidates(); len(l) == 0 {
+		_ = a.Close()
+		r.count("c08_tcp_backlog_no_candidate", 1)
+
+		return
+	}
+	ufrag, _, _ := a.GetLocalUserCredentials()
+	user := ufrag + ":remote"
+	c, err := net.DialTimeout("tcp4", ln.Addr().String(), 2*time.Second)
+	if err != nil {
+		_ = a.Close()
+		r.inconclusive(1)
+
+		return
+	}
+	defer c.Close() //nolint:errcheck
+	_, _ = c.Write(vfFrame(vfStunWithUser(rng, &user)))
+	for k := 0; k < 8+rng.IntN(8); k++ {
+		_, _ = c.Write(vfFrame([]byte(fmt.Sprintf("\x90backlog-%d-%d", idx, k))))
+	}
+	parked := func() int {
+		n := 0
+		for _, g := range strings.Split(vfStacks(), "\n\n") {
+			if strings.Contains(g, "(*tcpPacketConn).handleRecv") || (strings.Contains(g, "(*tcpPacketConn).AddConn.func1") && strings.Contains(g, "[select")) {
+				n++
+			}
+		}
+
+		return n
+	}
+	for dl := time.Now().Add(3 * time.Second); parked() == 0 && time.Now().Before(dl); time.Sleep(300 * time.Microsecond) {
+	}
+	if parked() == 0 {
+		_ = a.Close()
+		r.count("c08_tcp_backlog_not_reached", 1) // somebody is draining the queue: nothing to observe here
+
+		return
+	}
+	kind := []string{"close", "graceful"}[rng.IntN(2)]
+	done := make(chan struct{})
+	go func() {
+		defer close(done)
+		if kind == "graceful" {
+			_ = a.GracefulClose()
+		} else {
+			_ = a.Close()
+		}
+	}()
+	r.eval(1)
+	ok, stuck, dump := vfAwaitOrStuck(done, 3*time.Second)
+	switch {
+	case ok:
+		r.count("c08_tcp_backlog_closes_checked", 1)
+	case stuck:
+		r.violation("close-stuck:tcp-receive-queue-full", fmt.Sprintf("history %d: %s did not return while the reader of an inbound ICE-TCP connection was handing a packet to the full receive queue of its candidate: the involved goroutines are parked in the same frames in two dumps", idx, kind),
+			map[string]any{"idx": idx, "kind": kind, "stacks": dump})
+	default:
+		r.inconclusive(1)
+	}
+	_ = c.Close()
+	select {
+	case <-done:
+	case <-time.After(5 * time.Second):
+	}
+	r.distinct("c08tcpbacklog/" + kind)
+}
+
 func TestVerifC08(t *testing.T) {
 	vfRun(t, "C08", func(e *vfEnv, r *vfResult) {
 		positions := []string{"new", "gathering", "gathered", "dialing", "checking", "connected", "restarted", "regathering", "regathering-then-restart"}
@@ -1019,6 +1357,15 @@ func TestVerifC08(t *testing.T) {
 		}
 		for i := 0; i < e.n(40, 1500); i++ {
 			vfC08LateCandidate(e, r, 5000000+i)
+		}
+		for i := 0; i < e.n(3, 40); i++ {
+			vfC08StalledTURNS(e, r, 8000000+i)
+		}
+		for i := 0; i < e.n(6, 200); i++ {
+			vfC08MuxWriteBlocked(e, r, 9000000+i)
+		}
+		for i := 0; i < e.n(6, 200); i++ {
+			vfC08TCPBacklog(e, r, 9500000+i)
 		}
 		for i := 0; i < e.n(60, 2400); i++ {
 			vfC08CancelledCycle(e, r, 6000000+i)
